@@ -20,7 +20,7 @@ RULE = ("(encoder level, exhaustive) for eco-mode v1 and v2 groups x every prior
 ASSUMPTIONS = ["v1 groups carry no SoC and encode_discharge takes none: SoC is asserted for v2 ECO_CHARGE only",
                "a limit whose encoding is the all-ones 'no value' sentinel (65535) is outside the readable domain",
                "a setter that raises (e.g. ES with undecodable prior eco registers) has not 'succeeded': nothing is asserted then"]
-MUST = ["eco_group_type_checked", "prior_group_fulltime_but_off", "prior_group_typed_with_undecodable_tail", "single_sensor_reads_before_setters", "roundtrips_in_each_mode", "background_poller_during_setters", "same_mode_repeated", "setter_with_refused_write", "polls_between_setters", "encoder_roundtrips", "mode_roundtrips", "eco_charge_checked", "eco_discharge_checked", "groups_off_checked",
+MUST = ["limits_kept_across_mode_change", "eco_group_type_checked", "prior_group_fulltime_but_off", "prior_group_typed_with_undecodable_tail", "single_sensor_reads_before_setters", "roundtrips_in_each_mode", "background_poller_during_setters", "same_mode_repeated", "setter_with_refused_write", "polls_between_setters", "encoder_roundtrips", "mode_roundtrips", "eco_charge_checked", "eco_discharge_checked", "groups_off_checked",
         "export_limit_roundtrips", "dod_roundtrips", "prior_nonempty_types", "es_modes", "et_745", "et_v1"]
 EXHAUSTIVE = {"quick": False, "thorough": False}
 
@@ -239,6 +239,22 @@ def e2e_part(spec, part):
                 if variant == "v1" and fam == "ET":
                     part.count("et_v1")
                 steps.append((m.name, got.name if got is not None else None))
+                if state.get("limits") is not None and got == m:
+                    # the export limit and depth of discharge set BEFORE this mode change are still what the getters return after it
+                    d0_, x0_, m0_ = state.pop("limits")
+                    try:
+                        gd0, gx0 = await inv.get_ongrid_battery_dod(), await inv.get_grid_export_limit()
+                    except Exception as e:      # noqa
+                        part.violate(f"C19/{fam}/run-failed/{type(e).__name__}", f"{tagtxt}: getters after the change {m0_} -> {m.name}: {e!r}", case)
+                        gd0, gx0 = d0_, x0_
+                    part.count("limits_kept_across_mode_change")
+                    if gx0 != x0_:
+                        part.violate(f"C19/{fam}/export-limit-roundtrip/after-mode-change",
+                                     f"{tagtxt}: set_grid_export_limit({x0_}) in mode {m0_}, then set_operation_mode({m.name}, {p}, {s_}): get_grid_export_limit() = {gx0}", case)
+                    if gd0 != d0_:
+                        part.violate(f"C19/{fam}/dod-roundtrip/after-mode-change/{m.name}",
+                                     f"{tagtxt}: set_ongrid_battery_dod({d0_}) in mode {m0_}, then set_operation_mode({m.name}, {p}, {s_}): get_ongrid_battery_dod() = {gd0}", case)
+                state.pop("limits", None)
                 if got == m and rnd.random() < 0.5:
                     # the other setters round-trip whatever mode the inverter is in
                     d_ = rnd.randrange(0, 101)
@@ -256,6 +272,8 @@ def e2e_part(spec, part):
                         part.violate(f"C19/{fam}/dod-roundtrip", f"{tagtxt}: in mode {m.name}: set_ongrid_battery_dod({d_}) then get = {gd}", case)
                     if gx != x_:
                         part.violate(f"C19/{fam}/export-limit-roundtrip", f"{tagtxt}: in mode {m.name}: set_grid_export_limit({x_}) then get = {gx}", case)
+                    if gd == d_ and gx == x_:
+                        state["limits"] = (d_, x_, m.name)
                 if got != m:
                     key = f"C19/{fam}/mode-roundtrip/{m.name}"
                     # known mechanism: ECO leaves the groups alone; a pre-existing all-day/all-week enabled group 1 makes the
